@@ -120,6 +120,13 @@ example : ∃ out, Gen.searchStep "misc_feature" true false [⟨[], [97, 99]⟩]
     (Bridge.searchStep_eq _ _ _ _ _ _) ⟨[], [97, 99]⟩ (by simp) (by simp) 0
   exact ⟨this.1 (by decide +kernel), this.2 rfl (by decide +kernel)⟩
 
+/-- non-vacuity of `match_cli_step_sound`: `gts search @rn` on `cgtAC` (IUPAC matching): the hypothesis holds for the
+record the command writes, and the window `AC` at 3 is one the query matches -/
+example : Gen.searchStep "misc_feature" false true [⟨[], [114, 110]⟩] [] ⟨[], [99, 103, 116, 65, 67]⟩ =
+      some [Cli.searchStep false true "misc_feature" [] [⟨[], [114, 110]⟩] ⟨[], [99, 103, 116, 65, 67]⟩] ∧
+    MatchesAt [99, 103, 116, 65, 67] [114, 110] 3 :=
+  ⟨Bridge.searchStep_eq _ _ _ _ _ _, by decide⟩
+
 example : Occurs [65, 67, 71, 84] [97, 99] 0 ∧ Occurs (([65, 67, 71, 84] : List UInt8).map complementByte).reverse [97, 99] 0 := by
   decide +kernel
 
